@@ -419,7 +419,7 @@ def _v6(ctx, rep, order_guards):
         if len(loops) != 1:
             rep.undecided("V6", v, "loop", "expected one loop over the schedules")
             continue
-        pins, idx_pins, unknown, len_pin = {}, {}, [], None
+        pins, idx_pins, unknown, len_guards = {}, {}, [], []
         for st in loops[0].body:
             if isinstance(st, ast.If) and st.body and isinstance(st.body[-1], ast.Raise):
                 tests = st.test.values if isinstance(st.test, ast.BoolOp) and isinstance(st.test.op, ast.Or) else [st.test]
@@ -435,9 +435,10 @@ def _v6(ctx, rep, order_guards):
                             elif isinstance(i, int) and j == 1 and isinstance(val, int):
                                 idx_pins[i] = val
                                 ok = True
-                    if not ok and isinstance(t, ast.Compare) and len(t.ops) == 1 and isinstance(t.ops[0], ast.NotEq) \
-                            and unparse(t.left) == "len(schedule)" and isinstance(const(t.comparators[0]), int):
-                        len_pin = const(t.comparators[0])
+                    if not ok and isinstance(t, ast.Compare) and len(t.ops) == 1 and unparse(t.left) == "len(schedule)" \
+                            and isinstance(const(t.comparators[0]), int) and isinstance(t.ops[0], (ast.NotEq, ast.Eq, ast.Lt, ast.LtE, ast.Gt, ast.GtE)):
+                        k, op = const(t.comparators[0]), t.ops[0]
+                        len_guards.append(lambda n, k=k, op=op: _cmp(op, n, k))   # reject when true
                         ok = True
                     if not ok:
                         unknown.append(unparse(t))
@@ -462,7 +463,7 @@ def _v6(ctx, rep, order_guards):
                 return False          # item validator: empty list / index out of range
             if any(g.fn(seq) for g in order_guards):
                 return False
-            if len_pin is not None and len(seq) != len_pin:
+            if any(g(len(seq)) for g in len_guards):
                 return False
             for i, k in pins.items():
                 if i >= len(seq) or seq[i] != k:
